@@ -406,8 +406,7 @@ impl Sim {
                 }
                 match verdict {
                     Ok(newgen) => {
-                        // generations of attempt records are not part of the model
-                        let absgen = if abs["key"] == "state" { newgen } else { 0 };
+                        let absgen = newgen;
                         if fault == "reject" {
                             (Err(fault_err), json!({"r":"fault","applied":false}))
                         } else {
